@@ -619,7 +619,7 @@ def ctext(fn, e, values=True):
 
 
 # ---------------------------------------------------------------------------------------------------------------------------
-# inlined view: statement-level calls of void members of the same class replaced by the callee's body (parameters replaced by
+# inlined view: statement-level calls of non-public void members of the same class replaced by the callee's body (parameters replaced by
 # the arguments), so that a rule sees the same statements whether or not a block was extracted into a private helper
 # ---------------------------------------------------------------------------------------------------------------------------
 def inlined_body(fn, by_pat, depth=2, _stack=(), keep=()):
@@ -642,7 +642,7 @@ def inlined_body(fn, by_pat, depth=2, _stack=(), keep=()):
         if s.get("k") == "Expr" and isinstance(strip(s.get("e")), dict) and strip(s["e"]).get("k") == "Call" and d > 0:
             c = strip(s["e"])
             cal = by_pat.get(c.get("cpat"))
-            if cal is not None and cal is not fn and cal.get("body") is not None and cal.get("rect") == fn.get("rect") and cal.get("ret") == "void" and cal.get("name") not in keep \
+            if cal is not None and cal is not fn and cal.get("body") is not None and cal.get("rect") == fn.get("rect") and cal.get("ret") == "void" and cal.get("access", 2) != 0 and not (keep(cal.get("name") or "") if callable(keep) else cal.get("name") in keep) \
                     and cal["pat"] not in _stack and len(cal.get("params", [])) == len(c.get("args", [])) and (c.get("obj") is None or strip(c["obj"]).get("k") == "This"):
                 m = {p["d"]: a for p, a in zip(cal["params"], c["args"])}
                 body = subst(cal["body"], m)
